@@ -606,6 +606,7 @@ def event_layout(rep):
     L += tags_layout(rep)
     L += tags_writer(rep)
     L += filter_arrays(rep)
+    L += from_parts_rejections(rep)
     L += ['end Pocket.Src', '']
     return '\n'.join(L)
 
@@ -966,6 +967,50 @@ def filter_arrays(rep):
         L += ['/-- the array loops of `Filter::from_parts` could not be translated: %s -/' % str(ex).replace('-/', '- /'),
               'def filterArraysWrite (ids authors : List Bytes) (kinds : List Nat) (tagBytes : Bytes) (output : Bytes) : Bytes := untranslatable_source "Filter::from_parts arrays"', '']
         rep['untranslatable'].append('filter arrays: %s' % ex)
+    return L
+
+
+MAXES = {'u16::MAX': 65535, 'u32::MAX': 4294967295, 'u64::MAX': 18446744073709551615}
+
+
+def from_parts_rejections(rep):
+    """what `Event::from_parts` and `Filter::from_parts` refuse before writing anything: the statements between the size computation and
+    the first write, each `if X > uN::MAX as usize { return Err(OutOfRange) }`, `if output.len() < length { return Err(BufferTooSmall) }`
+    or the same test in a loop over several counts"""
+    L = []
+    for rel, lean, params, names in (('pocket-types/src/event.rs', 'eventRejects', '(length outLen : Nat)', {'length': 'length'}),
+                                     ('pocket-types/src/filter.rs', 'filterRejects', '(nIds nAuthors nKinds length outLen : Nat)',
+                                      {'length': 'length', 'ids.len()': 'nIds', 'authors.len()': 'nAuthors', 'kinds.len()': 'nKinds'})):
+        try:
+            src = open(os.path.join(REPO, rel)).read()
+            _, body = fn_text(src, 'from_parts')
+            b = re.sub(r'\s+', '', body)
+            i, j = b.find('letlength=Self::output_size_needed('), b.find('output[0..4]')
+            if i < 0 or j < 0:
+                raise Untranslatable('no size computation or no first write')
+            rest = b[b.index(';', i) + 1:j]
+            terms = []
+            while rest:
+                m = re.match(r'if([\w.()]+)>(u\d+::MAX)asusize\{returnErr\(InnerError::OutOfRange\(\1\)\.into\(\)\);\}', rest)
+                if m and m.group(1) in names:
+                    terms.append('decide (%s > %d)' % (names[m.group(1)], MAXES[m.group(2)])); rest = rest[m.end():]
+                    continue
+                m = re.match(r'ifoutput\.len\(\)<length\{returnErr\(InnerError::BufferTooSmall\(length\)\.into\(\)\);\}', rest)
+                if m:
+                    terms.append('decide (outLen < length)'); rest = rest[m.end():]
+                    continue
+                m = re.match(r'forcountin\[([^\]]+)\]\{ifcount>(u\d+::MAX)asusize\{returnErr\(InnerError::OutOfRange\(count\)\.into\(\)\);\}\}', rest)
+                if m and all(x in names for x in m.group(1).split(',')):
+                    terms += ['decide (%s > %d)' % (names[x], MAXES[m.group(2)]) for x in m.group(1).split(',')]; rest = rest[m.end():]
+                    continue
+                raise Untranslatable('statement %r' % rest[:70])
+            L += ['/-- what `%s::from_parts` refuses before it writes (%s), in source order -/' % ('Event' if 'event' in rel else 'Filter', rel),
+                  'def %s %s : Bool := %s' % (lean, params, ' || '.join(terms) if terms else 'false'), '']
+            rep['translated'].append('%s:from_parts rejections (%d)' % (rel, len(terms)))
+        except (Untranslatable, ValueError) as ex:
+            L += ['/-- the rejections of from_parts (%s) could not be translated: %s -/' % (rel, str(ex).replace('-/', '- /')),
+                  'def %s %s : Bool := untranslatable_source "from_parts rejections"' % (lean, params), '']
+            rep['untranslatable'].append('%s rejections: %s' % (rel, ex))
     return L
 
 
